@@ -11,6 +11,20 @@ TB = ('CPython 3.12 (struct, hashlib, json, zoneinfo), attrs equality, cryptodat
       'the explorer kernel in /verif/mc and the reference models in /verif/mc/ref')
 
 CHECKS = {
+    'C02': dict(
+        technique='exhaustive enumeration of bounded byte-mutation families on the real parsers',
+        text='Every truncation, every single-byte substitution/deletion/insertion, all B5 pairs in the header '
+             'region, all short strings and token sequences, over every seed of every parsable class (379 classes, '
+             '3 entry points + extra parse functions): the call returns or raises a documented error. Bounded: '
+             'deviations <= 2 from a seed.',
+        design='§5 C02'),
+    'C03': dict(
+        technique='exhaustive enumeration of bounded byte-mutation families + suffix families; multi-entry-point '
+                  'differential oracle',
+        text='Same bounded input space as C02 plus 9 suffixes per accepted frame; on every buffer the three entry '
+             'points are compared (n range, in-place remainder, exact-size iff n==len, buffer untouched on failure) '
+             'and framing units are checked against an independent header reader and for self-delimitation.',
+        design='§5 C03'),
     'C17': dict(
         technique='exhaustive explicit-state enumeration (all pairs, triples, permutations) on the real class',
         text='Complete: every ordered pair and triple of all defined versions, every permutation of every '
